@@ -62,10 +62,10 @@ Fixpoint bcj_read_loop_old (fuel : nat) (a : arch) (st : rstate) (inner : list i
         else
           let in_size := FILTER_BUF_SIZE - start in
           match inner_read inner in_size with
-          | (RErr c, inner') =>
+          | (BjErr c, inner') =>
               (* the bytes in [out] have been copied to the caller but the call returns Err *)
               Ok ([], Some c, mkR (r_filter st) pos filtered unfiltered live (r_end st) (Some c), inner')
-          | (RData data, inner') =>
+          | (BjData data, inner') =>
               let in_size := zlen data in
               if in_size =? 0 then
                 do r <- bcj_read_loop_old fuel' a (mkR (r_filter st) pos unfiltered 0 live true (r_err st)) inner' len size;
